@@ -334,8 +334,27 @@ Resolve ==
        /\ w.err \in {"ok", "KeyError"}
        /\ IF w.err # "ok" THEN Fail(op, "AliasResolutionError")
           ELSE IF w.obj = a THEN Fail(op, "Cyclic")
+          ELSE IF KindOf[w.obj] = "alias" /\ atarget[w.obj] = Nil
+          \* the next link b is itself an unresolved alias: _resolve_target resolves it first (lazy, nested
+          \* resolve_target; one level of nesting is modelled, deeper chains are Alias.tla's), b registers
+          \* itself on the final target, THEN a registers itself there as well (under its own path) and
+          \* only then binds its target.  A link that cannot be resolved leaves both untouched.
+          THEN LET b == w.obj
+                   w2 == Lookup(COLL, atpath[b])
+               IN /\ ~w.via
+                  /\ (TopDown => \A c \in AliasObj : atarget[c] # b)
+                  /\ w2.err \in {"ok", "KeyError"}
+                  /\ IF w2.err # "ok" THEN Fail(op, "AliasResolutionError")
+                     ELSE IF w2.obj = b \/ w2.obj = a THEN Fail(op, "Cyclic")   \* b -> b, or a -> b -> a (passed-through guard)
+                     ELSE /\ ~w2.via
+                          /\ (IF KindOf[w2.obj] # "alias" THEN TRUE ELSE IF atarget[w2.obj] = Nil THEN FALSE ELSE KindOf[atarget[w2.obj]] # "alias")
+                          /\ LET fin == Final(w2.obj)
+                                 at2 == [atarget EXCEPT ![b] = w2.obj, ![a] = b]
+                                 br2 == [backrefs EXCEPT ![fin] = AddRef(AddRef(@, Path(b), b), Path(a), a)]
+                             IN /\ atarget' = at2 /\ backrefs' = br2 /\ UNCHANGED <<members, parent, atpath>>
+                                /\ outcome' = "ok" /\ LogR(op, members, parent, at2, atpath, br2, "ok", TRUE)
           ELSE /\ ~w.via
-               /\ (IF KindOf[w.obj] # "alias" THEN TRUE ELSE IF atarget[w.obj] = Nil THEN FALSE ELSE KindOf[atarget[w.obj]] # "alias")
+               /\ (IF KindOf[w.obj] # "alias" THEN TRUE ELSE KindOf[atarget[w.obj]] # "alias")
                /\ LET fin == Final(w.obj)
                       at2 == [atarget EXCEPT ![a] = w.obj]
                       br2 == [backrefs EXCEPT ![fin] = AddRef(@, Path(a), a)]
